@@ -63,6 +63,8 @@ def size_core(prog, eff, cache, name="cbor_serialized_size"):
 
 
 def subjects(prog):
+    """the serializers: functions of the serializer's unit that take (buffer, buffer_size) and return a byte count.  A unit-internal
+    helper that only serves them (a shared body of two siblings, taking a table of accessors) is judged where it is inlined."""
     unit = prog.fn("cbor_serialize").unit
     out = []
     for f in prog.lib_funcs():
@@ -71,7 +73,19 @@ def subjects(prog):
         names = {p["name"]: p["type"] for p in f.params}
         if names.get("buffer") == "i8*" and names.get("buffer_size") == "i64":
             out.append(f)
-    return out
+    cand = {f.name for f in out}
+    keep = []
+    for f in out:
+        if f.internal and f.name not in _self_recursive(prog, f):
+            callers = {g.name for g in prog.lib_funcs() if any(c.callee == f.name for c in g.calls())}
+            if callers and callers <= (cand - {f.name}):
+                continue
+        keep.append(f)
+    return keep
+
+
+def _self_recursive(prog, f):
+    return {f.name} if any(c.callee == f.name for c in f.calls()) else set()
 
 
 def zero_only_on_short_buffer(chk, rule, prog, eff, CS, encoders):
